@@ -166,9 +166,45 @@ def two_filters_one_path(f1, f2):
     return out
 
 
+def symlinked_root():
+    """the watched root is a symbolic link to a directory (follow_symlink left at its default): a filtered watch must not
+    deliver what the unfiltered watch on the same root does not"""
+    import time
+    base = tempfile.mkdtemp(prefix="c11sym")
+    out = []
+    try:
+        real, link = os.path.join(base, "real"), os.path.join(base, "link")
+        os.mkdir(real)
+        os.symlink(real, link)
+        got = {}
+        for name, f in (("unfiltered", None), ("filtered", [E.FileCreatedEvent])):
+            q = queue.Queue()
+            em = InotifyEmitter(q, ObservedWatch(link, recursive=False, event_filter=f), event_filter=f)
+            em.start()
+            try:
+                time.sleep(0.05)
+                open(os.path.join(real, "f_" + name), "w").close()
+                time.sleep(0.3)
+                evs = []
+                while not q.empty():
+                    evs.append(q.get()[0])
+                got[name] = [e for e in evs if isinstance(e, E.FileCreatedEvent)]
+            finally:
+                em.stop()
+                em.join(2)
+        if got["filtered"] and not got["unfiltered"]:
+            out.append(f"watched root is a symlink: the watch filtered on FileCreatedEvent delivers {got['filtered'][0]!r}, the unfiltered watch on the same root delivers no creation at all (the filter-derived kernel mask follows the link, the default mask does not)")
+    finally:
+        shutil.rmtree(base, ignore_errors=True)
+    return out
+
+
 def main():
     if REPLAY is not None:
         c = REPLAY
+        if c.get("kind") == "symlinked-root":
+            pr = symlinked_root()
+            replay_result(bool(pr), pr[:2])
         if c.get("kind") == "two-filters":
             g = lambda ns: None if ns is None else [getattr(E, n) for n in ns]
             pr = two_filters_one_path(g(c["f1"]), g(c["f2"]))
@@ -187,6 +223,10 @@ def main():
                 pr = run(filt, recursive, full)
                 if pr:
                     bat.fail("C11.filtered-stream", pr[0], {"filter": [c.__name__ for c in filt], "recursive": recursive, "full": full}, "InotifyEmitter.get_event_mask_from_filter")
+    bat.case("symlinked-root")
+    pr = symlinked_root()
+    if pr:
+        bat.fail("C11.symlinked-root", pr[0], {"kind": "symlinked-root"}, "Inotify.__init__")
     singles = [None] + [[c] for c in LATTICE]
     for f1, f2 in itertools.permutations(singles, 2):
         nm = lambda f: None if f is None else [c.__name__ for c in f]
